@@ -115,40 +115,68 @@ class Cut(Exception):
 
 
 class MinimizePrologue(Unit):
+    """The prologue of minimize up to the construction of Problem: early size checks (C19), the user's dict is copied (C11), and
+    every basic option is forwarded to Problem under its own name with the documented default (C19, C03: filter_size)."""
     name = "c11.minimize_prologue"
-    props = ("C11", "C19")
+    props = ("C11", "C19", "C03", "C05")
     fmodel = "REAL"
     functions = [("cobyqa.main", "minimize")]
 
     def run(self, c):
+        import sys
         from cobyqa.settings import Options
         m = main_shadow("prologue")
         ent = {}
         P, V = {}, {}
-        for k in ("history_size", "filter_size"):
+        kinds = {"history_size": "i", "filter_size": "i", "feasibility_tol": "f", "scale": "b", "store_history": "b", "debug": "b", "disp": "b"}
+        for k, kind in kinds.items():
             P[k] = z3.Bool(c.fresh_name("has_" + k))
-            V[k] = SI(z3.Int(c.fresh_name(k)))
+            if kind == "i":
+                V[k] = SI(z3.Int(c.fresh_name(k)))
+            elif kind == "f":
+                V[k] = SF.fresh(k, finite=True)
+            else:
+                V[k] = SB(z3.Bool(c.fresh_name(k)))
             ent[k] = (P[k], V[k])
-        for k, v in (("disp", False), ("debug", False)):
-            ent[k] = (z3.Bool(c.fresh_name("has_" + k)), v)
         user = SDict(ent, owner="user", name="options")
         v0 = user.version
-        seen = {}
+        got = {}
 
-        def obj_stub(fun, verbose, debug, *args):
-            seen["reached"] = True
+        def problem_stub(obj, x0, bounds, linear, nonlinear, callback, feasibility_tol, scale, store_history, history_size, filter_size, debug):
+            got.update(feasibility_tol=feasibility_tol, scale=scale, store_history=store_history, history_size=history_size,
+                       filter_size=filter_size, debug=debug)
             raise Cut
-
-        m.__dict__["ObjectiveFunction"] = obj_stub
+        for nm in ("ObjectiveFunction", "BoundConstraints", "LinearConstraints", "NonlinearConstraints"):
+            m.__dict__[nm] = lambda *a, **k: None
+        m.__dict__["_get_bounds"] = lambda b, n: None
+        m.__dict__["_get_constraints"] = lambda cs: ([], [])
+        m.__dict__["Problem"] = problem_stub
         kind, res = call_expecting(c, "C08.minimize_prologue", lambda: m.minimize(lambda x: 0.0, [0.0], options=user), (ValueError, Cut), props=["C08"])
         bad = z3.Or(z3.And(P["history_size"], V["history_size"].t <= 0), z3.And(P["filter_size"], V["filter_size"].t <= 0))
-        if isinstance(res, ValueError):
-            c.oblige("C19.minimize_prologue.raises_only_if_bad", bad, props=["C19"])
-        else:
-            c.oblige("C19.minimize_prologue.continues_only_if_good", z3.Not(bad), props=["C19"],
-                     note="a non-positive history_size / filter_size was accepted")
         c.oblige("C11.minimize_prologue.user_options_not_written", z3.BoolVal(user.version == v0), props=["C11"],
                  note="minimize wrote into the options dict passed by the user")
+        if isinstance(res, ValueError):
+            c.oblige("C19.minimize_prologue.raises_only_if_bad", bad, props=["C19"])
+            return
+        c.oblige("C19.minimize_prologue.continues_only_if_good", z3.Not(bad), props=["C19"],
+                 note="a non-positive history_size / filter_size was accepted")
+        from pyvc.values import realval
+        import numpy as np
+        dflt = {"history_size": sys.maxsize, "filter_size": sys.maxsize, "feasibility_tol": float(np.sqrt(np.finfo(float).eps)),
+                "scale": False, "store_history": False, "debug": False}
+        items = []
+        for k, d in dflt.items():
+            g = got[k]
+            if kinds[k] == "i":
+                ok = it(g) == z3.If(P[k], V[k].t, z3.IntVal(d))
+            elif kinds[k] == "f":
+                ok = SF.lift(g).r == z3.If(P[k], V[k].r, realval(d))
+            else:
+                ok = tobool(g) == z3.If(P[k], V[k].t, z3.BoolVal(d))
+            items.append((f"C19.minimize_prologue.option_forwarded.{k}", ok))
+        for nm, t in items:
+            c.oblige(nm, t, props=["C19", "C03", "C05"] if nm.endswith(("filter_size", "history_size", "store_history")) else ["C19"],
+                     note="an option is not handed to Problem under its own name / documented default")
 
 
 UNITS = [StaticFrame(), MinimizePrologue()]
